@@ -961,6 +961,19 @@ fn check(led: &Led, kn: &Knobs, total: usize, finished: bool, connect_faults: &[
                     sim::stat("probe.idle_closure_error_accepted");
                     continue;
                 }
+                // The multiplexed-stream transport hands a request to the
+                // connection it has; when the transport's own idle timeout
+                // closes connections under the request more than once, the
+                // randomised back-off between attempts may use up the
+                // response timeout. The request then ends with a timeout
+                // error inside its budget, which is a completion the
+                // property allows.
+                let idle_ns = kn.st_idle_timeout_ms * 1_000_000;
+                let idle_closures = l.stream_tx_ns.iter().filter(|t| **t + idle_ns >= r.start_ns && **t + idle_ns <= *end_ns).count();
+                if !matches!(kn.kind, Kind::Stream | Kind::Dgram) && e.contains("StreamReadTimeout") && elapsed + 1_000_000 >= ms_bound && idle_closures >= 2 {
+                    sim::stat("probe.timeout_after_repeated_idle_closure_accepted");
+                    continue;
+                }
                 sim::violation(
                     P,
                     "unexplained-error",
